@@ -456,6 +456,8 @@ class CallMixin:
         v = args[0]
         if isinstance(v, (STuple, SLit)):
             return [(SLit('list', list(v.items)), st)]
+        if isinstance(v, SVal):      # list(opaque iterable): an opaque list
+            return [(SVal(self.fresh(st, 'opaque_list', Val)), st)]
         raise Unsupported('list(%r)' % (v,))
 
     def bi_super(self, args, kwargs, st, node):
